@@ -471,3 +471,32 @@ Definition w_sched : list label :=
    LDisp;                        (* re-test: broken, token given back, input 1 skipped *)
    LDisp;                        (* check 2: skipped *)
    LDisp; LDisp].                (* end of inputs, Wait *)
+
+(* ---- why the worker must record broken BEFORE it gives the slot back ----
+   Characterisation (a regression lemma, not a finding): in the variant whose
+   worker releases first ([step_work_swapped]) the dispatcher's re-test after
+   Acquire can still see broken = 0, so with one worker a callback runs after
+   one that broke -- which [peach1_equiv_each] excludes for the real order. *)
+Definition w_sched_swapped : list label :=
+  [LDisp; LDisp; LDisp; LDisp;   (* check 0, Acquire, re-test, go: worker 0 *)
+   LDisp;                        (* check 1: broken = 0; blocked in Acquire *)
+   LWork 0; LWork 0;             (* enter, output *)
+   LWork 0;                      (* callback 0 returns (break): slot released FIRST *)
+   LDisp; LDisp;                 (* Acquire succeeds; re-test: broken is still 0 *)
+   LWork 0;                      (* only now: broken := 1 *)
+   LDisp;                        (* go: worker 1 -- one callback too many *)
+   LWork 1; LWork 1; LWork 1; LWork 1; LWork 1;
+   LWork 0;                      (* wg.Done of worker 0 *)
+   LDisp; LDisp; LDisp].         (* check 2: skipped; end of inputs; Wait *)
+
+Lemma release_before_record_admits_extra_callback :
+  exists s, exec_swapped (faithful (Some 1)) w_cb 3 init w_sched_swapped = Some s
+    /\ pc s = DDone /\ cancelled s = false /\ panicked s = false
+    /\ calls s 0 = 1 /\ calls s 1 = 1 /\ calls s 2 = 0
+    /\ each_calls w_cb 3 1 = 0.
+Proof.
+  destruct (exec_swapped (faithful (Some 1)) w_cb 3 init w_sched_swapped) as [s|] eqn:E;
+    [|vm_compute in E; discriminate].
+  exists s. split; [reflexivity|].
+  vm_compute in E. inversion E; subst. cbn. repeat split; reflexivity.
+Qed.
